@@ -132,3 +132,29 @@ Section Unroll.
     replace (Z.to_nat (lo + Z.of_nat n - lo)) with n by lia. apply iter_unrolled; assumption.
   Qed.
 End Unroll.
+
+(** ** add_assertion: a further assertion only narrows the admissible inputs *)
+Lemma check_preds_app : forall st a b,
+  check_preds st (a ++ b) = (do _ <- check_preds st a; check_preds st b).
+Proof.
+  induction a as [|p r IH]; intro b; cbn [app check_preds bind]; [reflexivity|].
+  destruct (eval st p) as [v|]; cbn [bind]; [|reflexivity].
+  destruct (as_bool v) as [[]|]; cbn [bind]; [apply IH|reflexivity|reflexivity].
+Qed.
+
+Theorem rule_add_assertion : forall formals preds e body inp,
+  match run (Proc formals (preds ++ [e]) body) inp with
+  | Done bufs cfg => run (Proc formals preds body) inp = Done bufs cfg
+  | Fails err => run (Proc formals preds body) inp = Fails err
+  | Invalid _ => True
+  end.
+Proof.
+  intros. unfold run.
+  destruct (forallb inbuf_ok (in_args inp)); [|exact I].
+  destruct (load_inputs (in_args inp) _) as [bs st1].
+  destruct (bind_args formals bs st1) as [st2|]; [|exact I].
+  rewrite check_preds_app.
+  destruct (check_preds st2 preds) as [[]|]; cbn [bind]; [|exact I].
+  destruct (check_preds st2 [e]); [|exact I].
+  destruct (exec_list body st2); reflexivity.
+Qed.
